@@ -10,6 +10,7 @@ package main
 import (
 	"fmt"
 	"html"
+	"net/url"
 	"strings"
 
 	"servitor/config"
@@ -388,6 +389,81 @@ func runRaw(r *ev.Report, rc rawCase, a rune, pos string, n int) {
 			r.Eval(2)
 		}
 	})
+	// the same failing URL referenced from documents that show the error themselves (an
+	// actor's footer for its outbox, an activity's header for its actor) or as one of their
+	// related items
+	note := func() M { return M{"type": "Note", "content": "x", "published": "2019-01-01T00:00:00Z"} }
+	person := func() M { return M{"type": "Person", "name": "P", "preferredUsername": "p"} }
+	holders := []struct {
+		name string
+		doc  M
+	}{
+		{"actor.outbox", M{"type": "Person", "name": "H", "outbox": u}},
+		{"announce.actor", M{"type": "Announce", "actor": u, "object": note(), "published": "2019-01-01T00:00:00Z"}},
+		{"announce.object", M{"type": "Announce", "actor": person(), "object": u, "published": "2019-01-01T00:00:00Z"}},
+		{"like.actor", M{"type": "Like", "actor": u, "object": note()}},
+		{"create.actor", M{"type": "Create", "actor": u, "object": note()}},
+		{"post.attributedTo", M{"type": "Note", "content": "x", "attributedTo": u}},
+		{"post.audience", M{"type": "Note", "content": "x", "attributedTo": person(), "audience": u}},
+		{"post.inReplyTo", M{"type": "Note", "content": "x", "inReplyTo": u}},
+		{"post.replies", M{"type": "Note", "content": "x", "replies": u}},
+		{"collection.first", M{"type": "Collection", "first": u}},
+	}
+	src, _ := url.Parse("https://h1.example/holder")
+	for _, h := range holders {
+		ch := c
+		ch.Carrier = c.Carrier + ":via:" + h.name
+		guarded(r, ch, func() {
+			inspect(r, ch, pub.New(h.doc, src), 0)
+		})
+	}
+}
+
+// inspect judges everything an item and the items reachable from it can put on the screen.
+func inspect(r *ev.Report, c caseDesc, item any, depth int) {
+	if item == nil || depth > 2 {
+		return
+	}
+	if coll, ok := item.(*pub.Collection); ok {
+		items, _, _ := coll.Harvest(2, 0)
+		for _, it := range items {
+			inspect(r, c, it, depth+1)
+		}
+		return
+	}
+	t, ok := item.(pub.Tangible)
+	if !ok || t == nil {
+		return
+	}
+	pre := strings.Repeat("related ", depth)
+	c.Sink = pre + "Name"
+	judge(r, c, t.Name())
+	for _, wd := range []int{1, 7, 80} {
+		c.Sink, c.Width = pre+"String", wd
+		judge(r, c, t.String(wd))
+		c.Sink = pre + "Preview"
+		judge(r, c, t.Preview(wd))
+		r.Eval(2)
+	}
+	switch v := t.(type) {
+	case *pub.Post:
+		for _, x := range append(v.Creators(), v.Recipients()...) {
+			inspect(r, c, x, depth+1)
+		}
+	case *pub.Activity:
+		inspect(r, c, v.Actor(), depth+1)
+		inspect(r, c, v.Target(), depth+1)
+	}
+	ps, _ := t.Parents(1)
+	for _, x := range ps {
+		inspect(r, c, x, depth+1)
+	}
+	if ch := t.Children(); ch != nil {
+		items, _, _ := ch.Harvest(2, 0)
+		for _, it := range items {
+			inspect(r, c, it, depth+1)
+		}
+	}
 }
 
 // ---------------------------------------------------------------- UI frames
@@ -426,7 +502,7 @@ func main() {
 	r := ev.New("C01", "exploration",
 		"atoms: every C0/DEL/C1 code point except newline (quick: NUL,BEL,BS,TAB,ESC,DEL,CSI,OSC), each followed by the tell-tale '[7m'; 32 markup carriers (HTML text/attributes/pre/code/unknown tag, Markdown text/destination/title/code/autolink/alt/raw HTML, gemtext, plain text) x 7 encodings "+
 			"(raw, decimal/hex/zero-padded/semicolon-less references, double-encoded, named) through Markup.Render, Post.String/Preview, Actor.String/Preview; every string field of actors, posts, activities and their nested links (with a name and without one, so that the address itself is displayed), authors and collections as string, list, object, hostile key, entity-in-plain-field and percent-encoded inside a URL (host; path, query and fragment); "+
-			"13 positions in raw HTTP responses (status line, Content-Type, Location, body, header name) x start/middle/end through pub.New's failure item; UI frames (normal, selection, opening, problem, command footers) for worlds carrying the atoms; widths {1,2,7,80,81}; "+
+			"13 positions in raw HTTP responses (status line, Content-Type, Location, body, header name) x start/middle/end through pub.New's failure item and through 10 kinds of document that refer to the failing URL (actor outbox, activity actor/object, post author/audience/parent/replies, collection first page), with every related item inspected; UI frames (normal, selection, opening, problem, command footers) for worlds carrying the atoms; widths {1,2,7,80,81}; "+
 			"distinct_nontrivial = (carrier, atom, encoding) triples")
 	palette = oracle.Palette{Colors: []string{config.Parsed.Style.Colors.Primary, config.Parsed.Style.Colors.Error, config.Parsed.Style.Colors.Highlight, config.Parsed.Style.Colors.Code}}
 	w.Install()
